@@ -1326,3 +1326,9 @@ Section HeapProofs.
   Theorem heap_refines_pure : forall ops, disciplined_run valueof [] ops ->
     forall h k b, plive (pure_run valueof ops) h = Some (k, b) -> abs (run valueof ops) h = Some b.
   Proof. intros ops Hd h k b Hp. eapply inv_abs; [apply run_inv; exact Hd|exact Hp]. Qed.
+
+End HeapProofs.
+
+Print Assumptions run_inv.
+Print Assumptions run_handles_length.
+Print Assumptions heap_refines_pure.
